@@ -1190,6 +1190,35 @@ def phase_list_rule(model, rep, r, an, labels=("R4", "R5")):
     rep.instance(labels[1], "system.System.solve unknown phase -> ValueError", where, ok_raise)
 
 
+def name_containment_rule(model, rep, rule, registries, what):
+    """names (of phases, components, rails, groups) are matched by equality or by membership in a registry, never by
+    containment IN a name: `x in p` with p an element of a name registry is a substring test"""
+    rel = model.rel("system")
+    n = 0
+    ok = True
+    for mod, qn, fn in model.all_functions():
+        if mod != "system":
+            continue
+        elems = {}
+        for x in ast.walk(fn):
+            tg = None
+            if isinstance(x, (ast.For, ast.comprehension)) and isinstance(x.target, ast.Name):
+                it = x.iter
+                while isinstance(it, ast.Call) and ((isinstance(it.func, ast.Name) and it.func.id in ("list", "iter", "sorted", "tuple")) or (isinstance(it.func, ast.Attribute) and it.func.attr == "keys")):
+                    it = it.args[0] if isinstance(it.func, ast.Name) and it.args else (it.func.value if isinstance(it.func, ast.Attribute) else None)
+                    if it is None:
+                        break
+                reg = registry_of(it) if it is not None else None
+                if reg in registries:
+                    elems[x.target.id] = reg
+                    n += 1
+        for x in ast.walk(fn):
+            if isinstance(x, ast.Compare) and len(x.ops) == 1 and isinstance(x.ops[0], (ast.In, ast.NotIn)) and isinstance(x.comparators[0], ast.Name) and x.comparators[0].id in elems:
+                ok = False
+                rep.violation(rule, "system.%s" % qn, "%s:%d" % (rel, x.lineno), "`%s` tests containment in a %s name ('%s' registry element): names are matched by equality, a fragment of a name is not the name" % (ast.unparse(x), what, elems[x.comparators[0].id]), "substring match in " + qn)
+    rep.instance(rule, "%s names are never matched by containment in a name" % what, rel + ":1", ok, "%d iteration(s) over the registries %s" % (n, "/".join(sorted(registries))))
+
+
 # ------------------------------------------------------------------------------------------------ C05 helpers
 def child_current_rule(model, rep, r, rule):
     rel = model.rel("system")
